@@ -143,6 +143,9 @@ type bastionStep struct {
 	Log     string     `json:"log,omitempty"`
 	Req     *world.Req `json:"req,omitempty"`
 	SleepMS int        `json:"sleep_ms,omitempty"`
+	// ExtLock (production binary on a database file): while this request is served ANOTHER connection to the database file (a backup, an
+	// operator's sqlite3 shell) holds a read transaction, so the witness' COMMIT cannot get its exclusive lock within the busy timeout.
+	ExtLock bool `json:"extlock,omitempty"`
 }
 
 type bastionRun struct {
@@ -174,6 +177,7 @@ type postEvent struct {
 	SinceMS   int                 `json:"sincems"` // upper bound of the time since the previous served request (-1 = none)
 	GapMS     int                 `json:"gapms"`   // lower bound of that time
 	Conc      string              `json:"conc"`
+	ExtLock   bool                `json:"extlock"` // another connection held a read transaction on the database file while this request was served
 }
 
 func bastionMain(args []string) error {
@@ -327,6 +331,8 @@ func renderBody(w *world.World, s bastionStep, c world.Concrete) []byte {
 type bastionFront struct {
 	post func(body []byte) (int, string, []byte)
 	snap func() snapshot
+	// extLock takes a read lock on the witness' database from outside and returns the function that releases it (nil: not available here)
+	extLock func() (func(), error)
 }
 
 func bastionLogs(w *world.World) ([]config.Log, error) {
@@ -411,10 +417,22 @@ func driveBastion(w *world.World, r bastionRun, tag, storeKind, embed string, li
 		}
 		body := renderBody(w, s, c)
 		start := time.Now()
+		locked := false
+		var release func()
+		if s.ExtLock && front.extLock != nil {
+			rel, err := front.extLock()
+			if err != nil {
+				return nil, err
+			}
+			release, locked = rel, true
+		}
 		status, ctype, rb := front.post(body)
+		if release != nil {
+			release()
+		}
 		end := time.Now()
 		post := front.snap()
-		ev := postEvent{E: "post", Run: tag, K: k, Kind: s.Kind, Log: s.Log, Req: rq, Status: status, CType: ctype,
+		ev := postEvent{E: "post", Run: tag, K: k, Kind: s.Kind, Log: s.Log, Req: rq, Status: status, CType: ctype, ExtLock: locked,
 			Stored: project(w, post), Unchanged: pre.equal(post), RefOK: "na", Limit: int(limit), SinceMS: -1, GapMS: -1,
 			Conc: fmt.Sprintf("old=%d size=%d proof=%d body=%dB %s", c.OldSize, c.Size, len(c.Proof), len(body), c.Note)}
 		if !lastServedStart.IsZero() {
